@@ -38,7 +38,8 @@ FLOORS = {'rounding_calls': 5000, 'elementary_calls': 2000,
           'domain_calls': 30, 'contract_evals': 5000, 'formula_calls': 300,
           'functions_seen': 30, 'host_decimal_context_calls': 500,
           'edge_magnitude_calls': 300, 'near_whole_result_calls': 300,
-          'numpy_operand_domain_cases': 100}
+          'numpy_operand_domain_cases': 100,
+          'huge_quotient_multiples': 24}
 ANCHOR_FUNCS = {'xlcalculator/xlfunctions/math.py': [
     'ROUND', 'ROUNDUP', 'ROUNDDOWN', 'TRUNC', 'INT', 'CEILING', 'FLOOR',
     'EVEN', '_round', 'MOD', 'LN', 'LOG', 'LOG10', 'SQRT', 'ATAN2', 'FACT',
@@ -298,6 +299,18 @@ def run(ctx):
                     R.both(fname, (x, s), want, 'rounding',
                            (fname, sign_class(x), sign_class(s), dy, mult),
                            formula=formula_ok, tags=(dy,))
+    # CEILING / FLOOR whose count of multiples has 40 and more digits
+    if ctx.shard in (0, 1) or thorough:
+        for x, s_ in ((1e40, 1), (1e41, 3), (1e300, 1), (2.5e30, 1e-15),
+                      (-1e41, -10), (1e-5, 1e-300), (1.5e308, 1e-10),
+                      (-1e45, 7), (9.999e39, 1), (1e39, 0.7), (3e50, 1e5),
+                      (1e25, 1e-20)):
+            for fname, up in (('CEILING', True), ('FLOOR', False)):
+                want = ref_multiple(x, s_, up)
+                R.both(fname, (x, s_), want, 'rounding',
+                       (fname, 'huge-quotient', x, s_), tol_ulp=4,
+                       formula=True)
+                ctx.event('huge_quotient_multiples')
     for fname in ('CEILING',):
         R.both(fname, (2.5, 0), 0.0, 'rounding', (fname, 'significance-0'))
     R.both('FLOOR', (2.5, 0), ('err', '#DIV/0!'), 'domain',
